@@ -194,8 +194,14 @@ func TestC09Aggregate(t *testing.T) {
 			if vi == corruptVal && corruption != "none" {
 				j := rapid.IntRange(0, len(parts)-1).Draw(rt, "victim")
 				other := valgen.Signed(t, k, seed+7919)
-				if oSpec, _ := specsign.Of(bn, other); oSpec == spec {
-					rt.Skip("other value has the same signing spec")
+				// "another message" must really be another one for the signature: its signing root (object root under
+				// the domain of its own epoch) has to differ. Two values that differ only in a slot or epoch of the same
+				// fork have one signing root when the signed root does not cover that field (a sync message's root is
+				// the block root alone).
+				if oRoot, oerr := specsign.SigningRoot(bn, other); oerr != nil {
+					rt.Skip("other value has no signing root")
+				} else if ownRoot, _ := specsign.SigningRoot(bn, v); oRoot == ownRoot {
+					rt.Skip("other value has the same signing root")
 				}
 				switch corruption {
 				case "all_signed_for_fork_of_epoch_0":
@@ -375,10 +381,12 @@ func TestC09Aggregate(t *testing.T) {
 			switch followUp {
 			case "replayed_signatures_on_other_content":
 				other := valgen.Signed(t, k, int64(rapid.IntRange(1, 1<<30).Draw(rt, "otherSeed")))
-				oSpec, err := specsign.Of(bn, other)
-				spec0, _ := specsign.Of(bn, v0.value)
-				if err != nil || oSpec == spec0 {
-					rt.Skip("other value has the same signing spec")
+				oRoot, err := specsign.SigningRoot(bn, other)
+				root0, _ := specsign.SigningRoot(bn, v0.value)
+				if err != nil || oRoot == root0 {
+					// same signing root (e.g. two sync messages for one block root at slots of the same fork): the
+					// signatures are valid for the other content too, nothing is corrupted
+					rt.Skip("other value has the same signing root")
 				}
 				if p, ok := other.(core.VersionedSignedProposal); ok && (p.Version == eth2spec.DataVersionPhase0 || p.Version == eth2spec.DataVersionAltair) {
 					rt.Skip("pre-merge proposal")
